@@ -40,7 +40,9 @@ func (a *actorProcess) delivery(sender, forward *prc.ProcessId, message prc.Mess
 		sender = forward
 	}
 
-	switch message.(type) {
+	// the message arrives wrapped (prc.WrapMessage): the mailbox control messages are recognised by their content
+	_, _, content := prc.UnwrapMessage(message)
+	switch content.(type) {
 	case *onSuspendMailboxMessage:
 		a.mailbox.Suspend()
 	case *onResumeMailboxMessage:
